@@ -479,6 +479,41 @@ func (env *Env) trCall(x ECall) TV {
 		v := env.tr(args[0])
 		so := args[1].(EStr).Val
 		return TV{T: fmt.Sprintf("(%s (i-val %s))", eng.unboxFn(so), v.T), S: so}
+	case "implements":
+		// implements(x, "pkg.Iface"): the dynamic type of interface value x implements the named interface
+		v := env.tr(args[0])
+		t := eng.lookupNamed(args[1].(EStr).Val)
+		if t == nil {
+			env.fail("implements: unknown interface %s", args[1])
+		}
+		f := eng.ufun("implements_"+shortTypeName(t), []string{"Int"}, "Bool")
+		eng.noteIfaceAssert(t, f)
+		return TV{T: fmt.Sprintf("(and (not (= (i-typ %s) 0)) (%s (i-typ %s)))", v.T, f, v.T), S: "Bool"}
+	case "pointeeBoxed":
+		// pointeeBoxed(p): the value behind the boxed pointer argument p, boxed as an interface
+		l, el := fc.pointeeLoc(env, args[0])
+		if l == nil {
+			env.fail("pointeeBoxed(%s): not a boxed pointer built at the call site", args[0])
+		}
+		so := eng.sorts.sortOf(el)
+		val := fc.loadLoc(l, env.st)
+		payload := val
+		if so != "Int" {
+			payload = fmt.Sprintf("(%s %s)", eng.boxFn(so), val)
+		}
+		return TV{T: fmt.Sprintf("(mk-iface %s %s)", eng.typeIDTerm(el), payload), S: "Iface"}
+	case "boxed":
+		// boxed(x): the interface value holding x (as MakeInterface would build it)
+		v := env.tr(args[0])
+		if v.G == nil {
+			env.fail("boxed(%s): value has no Go type", args[0])
+		}
+		tid := eng.typeIDTerm(v.G)
+		payload := v.T
+		if v.S != "Int" {
+			payload = fmt.Sprintf("(%s %s)", eng.boxFn(v.S), v.T)
+		}
+		return TV{T: fmt.Sprintf("(mk-iface %s %s)", tid, payload), S: "Iface"}
 	case "store":
 		a, k, v := env.tr(args[0]), env.tr(args[1]), env.tr(args[2])
 		return TV{T: fmt.Sprintf("(store %s %s %s)", a.T, k.T, v.T), S: a.S}
